@@ -898,7 +898,7 @@ def gen_ops(ctx, codes):
     # parse_simple_pauli: both input forms, both output forms, malformed strings, I tokens, multi-digit and zero-padded indices
     pp = ['XIYXX', 'IIII', '_', 'X', 'ZZ', 'XAZ', 'xyz', 'X0', 'X0Y2X3X4', 'I0', 'X0I1Z2', 'Z10X3', 'Y007', 'X0Y', '0X1', 'X', 'XX0', 'X0X0', 'X1Y1', 'X-1',
           'Z12Y11X10', 'I5I6', 'XYZI0', 'X0YZ', 'X00', 'Y9Z8X7', 'X3Z1Y2']
-    for _ in range(20 if quick else 200):
+    for _ in range(20 if quick else 100):
         m = ctx.rng.randint(1, 6)
         if ctx.rng.random() < 0.5:
             pp.append(''.join(ctx.rng.choice('XYZI') for _ in range(m)))
@@ -910,7 +910,7 @@ def gen_ops(ctx, codes):
     for n, d in ([(1, 2), (2, 2), (2, 3), (3, 2), (3, 3), (3, 4), (4, 3), (5, 2), (2, 4), (1, 3)] + ([] if quick else [(4, 4), (5, 3), (6, 2)])) + [(2, 1)]:
         ops.append(f'C19 errfull {n} {d}')
     # shift_qubit_index_ on gate lists (negative deltas included), VarQEC.get_code for every code (and K not a power of two)
-    for _ in range(20 if quick else 200):
+    for _ in range(20 if quick else 100):
         n = ctx.rng.randint(1, 6)
         ops.append(f'C19 shift {ctx.rng.randint(-3, 6)} {gates_str(random_gates(ctx.rng, n, ctx.rng.randint(0, 8)))}')
     ops += ['C19 shift 0 h,0;cx,0,1', 'C19 shift 3 cz,2,0;y,1', 'C19 shift -2 cx,5,2;s,4']
@@ -934,7 +934,7 @@ def gen_ops(ctx, codes):
     for _ in range(40 if quick else 400):
         ops.append(f'C19 fceil {ctx.rng.randint(1, 60)} {float_bits(ctx.rng.uniform(0.01, 7.0))}')
     rng = ctx.rng
-    nr = 60 if quick else 400
+    nr = 60 if quick else 250
     for _ in range(nr):
         n = rng.randint(1, 6)
         gs = random_gates(rng, n, rng.randint(0, 14))
